@@ -13,7 +13,7 @@ from attrs import field, frozen
 from attrs.validators import in_, instance_of
 
 from hpl.ast.base import HplAstObject
-from hpl.ast.expressions import HplExpression, HplThisMessage
+from hpl.ast.expressions import HplExpression, HplThisMessage, HplVarReference
 from hpl.ast.predicates import HplPredicate, HplVacuousTruth
 from hpl.errors import HplSanityError
 from hpl.types import TypeToken
@@ -142,7 +142,22 @@ class HplSimpleEvent(HplEvent):
     def __str__(self) -> str:
         alias = (' as ' + self.alias) if self.alias is not None else ''
         assert self.is_publish, f'event_type: {self.event_type}'
-        return f'{self.name}{alias} {self.predicate}'
+        predicate = self.predicate
+        if self.alias is not None and _mentions_whole_message(predicate):
+            # the message itself has no textual form: write it as a reference to the own alias
+            predicate = predicate.replace_self_reference(HplVarReference(f'@{self.alias}'))
+        return f'{self.name}{alias} {predicate}'
+
+
+def _mentions_whole_message(predicate: HplPredicate) -> bool:
+    # is the current message used as a value of its own (e.g., `roll(@M)`), not just through its fields?
+    for obj in predicate.condition.iterate():
+        if obj.is_accessor and obj.is_field:
+            continue
+        for child in obj.children():
+            if child.is_value and child.is_this_msg:
+                return True
+    return False
 
 
 @frozen
